@@ -528,7 +528,7 @@ pub fn run(args: &Args) {
                 over pairs, trios, vaults, distributors, lairs and collectors, values drawn on / just inside / just outside every bound; \
                 non-trivial = at least 4 different operation kinds and at least 2 accepted writes; distinct = by hash of the history".into();
     if let Some(path) = &args.replay {
-        let j: serde_json::Value = serde_json::from_str(&std::fs::read_to_string(path).expect("replay file")).expect("json");
+        let j = read_replay(path);
         let ops: Vec<Op> = serde_json::from_value(j["failing_input"]["ops"].clone()).expect("failing_input.ops");
         let obs = run_history(&mut out, &ops, false);
         println!("replayed {} ops; observation: {}", ops.len(), obs.join(" "));
